@@ -6,45 +6,45 @@ import os
 ROOT = os.path.dirname(os.path.dirname(os.path.abspath(__file__)))
 
 T = {
- "C01": ("reference-model monitor (union-find count families) over the parsed written file + hooked wire counts at the quiescent point after write, on random lattice assemblies",
+ "C01": ("reference-model monitor (union-find count families) over the parsed written file + hooked wire counts at the quiescent point after write, on random lattice assemblies; histories: second write, write again after a refused write; multigraded directions, merged pairs",
          "Exploration: thousands of random assemblies x orientations x chop patterns (consistent / conflicting / missing); the oracle is an independent union-find model and an independent parser. Right level: the property is a relation over an unbounded input family, decided per execution in milliseconds."),
- "C02": ("schedule-bundle monitor: one model under insertion orders x renumberings x injected set iteration orders x fresh interpreters; logical step budget on Block.copy_grading; byte comparison of files",
+ "C02": ("schedule-bundle monitor: one model under insertion orders x renumberings x injected set iteration orders x fresh interpreters; logical step budget on Block.copy_grading; byte comparison of files; histories: write - stretch the assembled vertices - write (vs a fresh mesh of the moved geometry)",
          "Exploration of inputs and schedules: termination on a logical step budget (never wall clock), completeness against the union-find model, determinism by byte comparison between runs that differ only in schedule."),
- "C03": ("icontract postcondition on the real Chop.calculate + Grading invariant, and a reference geometric-progression oracle re-deriving the given parameters",
+ "C03": ("icontract postcondition on the real Chop.calculate + Grading invariant, and a reference geometric-progression oracle re-deriving the given parameters; multigrading class: description text vs specification, inverted grading = reversed cell sequence",
          "Exploration: 1.6e5 (quick) / 4e6 (thorough) parameter sets over six decades, all 10 pairs, dense near ratio 1 and at exact-integer solutions, plus an unrealisable class."),
- "C04": ("hooked per-wire Grading state + parsed simple/edgeGrading decoded to physical cell-size sequences by an independent progression; orientation-parity reference model for 'the same end'",
+ "C04": ("hooked per-wire Grading state + parsed simple/edgeGrading decoded to physical cell-size sequences by an independent progression; orientation-parity reference model for 'the same end'; histories: write twice, assemble-grade-write, write - move vertices - write; model units from micrometres to tens of metres; arcs defined by the first block only",
          "Exploration over lattices with unequal edge lengths, all orientations, preserve modes and multi-section chops."),
- "C05": ("reference-model monitor: (lattice node, slave-patch set) partition vs Block.indexes and the parsed vertices section; icontract postcondition on VertexList.add",
+ "C05": ("reference-model monitor: (lattice node, slave-patch set) partition vs Block.indexes and the parsed vertices section; icontract postcondition on VertexList.add; shared-master / chained merged pairs judged per contact; histories: merge declared after the first assembly, backport then one operation moved",
          "Exploration over assemblies, insertion orders, merged pairs, tolerance-band perturbations."),
  "C06": ("shadow-model monitor: random API programs, the written blockMeshDict and debug VTK parsed independently and compared with the shadow description",
          "Exploration over random user programs composed from the public API."),
- "C07": ("offline checker over the written edges section: each entry decoded to a directed curve and compared with the user's described curve (same end-point order), uniqueness and omission rules",
+ "C07": ("offline checker over the written edges section: each entry decoded to a directed curve and compared with the user's described curve (same end-point order), uniqueness and omission rules; shared edge-data objects, no-op calls (remove_edges([]))",
          "Exhaustive over 12 positions x edge kinds x face treatments, random geometry on top."),
- "C08": ("analytic-circle oracle (Rodrigues rotation, circumcircle) against Angle/Origin/Arc edges' third point, length and written arc entry; chord bound for all kinds",
+ "C08": ("analytic-circle oracle (Rodrigues rotation, circumcircle) against Angle/Origin/Arc edges' third point, length and written arc entry; chord bound for all kinds; histories: end vertices moved along the circle, the assembled edge item transformed through its own methods; decimetre arcs at kilometre coordinates",
          "Exploration over circles in general position, radii over three decades, sector angles of either sign."),
- "C09": ("metamorphic-relation monitor: assemble(A_api(X)) vs A_geom(assemble(X)) as position-keyed geometric content; copy-independence; argument-array snapshots",
+ "C09": ("metamorphic-relation monitor: assemble(A_api(X)) vs A_geom(assemble(X)) as position-keyed geometric content; copy-independence; argument-array snapshots; histories: assembled once before the transformation, copy projected / original unchanged; built-in geometry and the entity's own centre follow; transformation objects unchanged",
          "Exploration over entity zoo x edge kinds x transformation kinds x origins, compositions up to three."),
- "C10": ("identity-map monitor on Face re-indexing (edge object <-> end positions) and hexconv-table oracle for side/edge/corner addressing observed in the written file",
+ "C10": ("identity-map monitor on Face re-indexing (edge object <-> end positions) and hexconv-table oracle for side/edge/corner addressing observed in the written file; projected corners through re-indexing, read-only queries between calls, reused label lists, a probe operation built after addressing calls (global state)",
          "Exhaustive over 6 sides x 12 edges x 8 corners and shift/reorient choices, random geometry and call sequences on top."),
  "C11": ("structural oracle over the parsed file of every predefined shape: corner Jacobians, face-connectivity, vertex counts, arcs on the intended circle, documented chops sufficient, interface vertices of chained shapes",
          "Exploration over shape classes x placement x sizes x chains."),
- "C12": ("history monitor: random life-cycle histories vs a freshly built model from the shadow description, compared as parsed canonical content; byte equality for write-twice",
+ "C12": ("history monitor: random life-cycle histories vs a freshly built model from the shadow description, compared as parsed canonical content; byte equality for write-twice; far-from-origin models, delete before add, settings taken back",
          "Exploration over call histories of bounded length generated by a legality state machine."),
- "C13": ("hooked optimizer state: quality before/after, bit-compare of unclamped vertices, manifold/bounds/link oracles, one-shot degenerate-cell failpoint for the rollback clause",
+ "C13": ("hooked optimizer state: quality before/after, bit-compare of unclamped vertices, manifold/bounds/link oracles, one-shot degenerate-cell failpoint for the rollback clause; histories: second optimize() call, mesh.backport() between calls, links holding live vertex arrays; 0.1 mm models",
          "Exploration + fault injection over assemblies/sketches x clamp mixes x links x 4 methods."),
- "C14": ("metamorphic monitor on the real Cell quality: rigid motion / scaling / 24 (4) rotational renumberings / stretch monotonicity",
+ "C14": ("metamorphic monitor on the real Cell quality: rigid motion / scaling / 24 (4) rotational renumberings / stretch monotonicity; histories: smoothed / update()-moved long-lived grid vs fresh grid (nested-list containers, grid turned out of plane)",
          "Exhaustive over renumberings per geometry; random geometries and transforms."),
- "C15": ("reference-model monitor: boundary / neighbour sets recomputed from cell connectivity; bit-compare of fixed points; fixed-point equation after N iterations",
+ "C15": ("reference-model monitor: boundary / neighbour sets recomputed from cell connectivity; bit-compare of fixed points; fixed-point equation after N iterations; histories: points fixed after the first smoothing, sketch translated after smoothing; one-shot iterables",
          "Exploration over structured/unstructured quad maps and hex assemblies."),
- "C16": ("consistency monitor on the real curve classes: end points, additivity, polyline length, dense-sample closest-point oracle, OnCurve edge entries in the written file",
+ "C16": ("consistency monitor on the real curve classes: end points, additivity, polyline length, dense-sample closest-point oracle, OnCurve edge entries in the written file; histories: vertex moved along the curve after the first write, curve sheared / stretched before judging, caller edits the constructor array",
          "Exploration over curve kinds x uneven point sets x parameter pairs x queries."),
- "C17": ("geometric oracle (distance to line/curve/circle/plane/surface, Rodrigues, Householder) on real clamps and links; leader snapshot",
+ "C17": ("geometric oracle (distance to line/curve/circle/plane/surface, Rodrigues, Householder) on real clamps and links; leader snapshot; histories: caller re-uses the arrays a clamp was built from; leaders that move without turning; nan-aware verdicts",
          "Exploration over positions, directions, origins in general position, parameter sweeps, leader moves."),
- "C18": ("brute-force oracle for finders; 48-numbering canonicalisation monitor for the viewpoint re-orienter",
+ "C18": ("brute-force oracle for finders; 48-numbering canonicalisation monitor for the viewpoint re-orienter; histories: vertices moved / mesh back-ported between queries of one finder, mutated result sets, one long-lived re-orienter; boxes seen from an edge (sequential oracle)",
          "Exhaustive over 48 numberings per geometry; random meshes, spheres, planes, viewpoints."),
- "C19": ("geometric addressing oracle: grid[k][j][i] centre in the grid's own frame, slices, core/shell vs outer surface, deletion observed in the written file",
+ "C19": ("geometric addressing oracle: grid[k][j][i] centre in the grid's own frame, slices, core/shell vs outer surface, deletion observed in the written file; mirrors among the placements, delete before add / twice, three-level sketches",
          "Exhaustive over indices of each random instance."),
- "C20": ("two-sided boundary table: each documented precondition driven on accept and reject side, exception family oracle",
+ "C20": ("two-sided boundary table: each documented precondition driven on accept and reject side, exception family oracle; far-from-origin near-miss clamps, auto_optimize over a user clamp",
          "Fault-style enumeration of documented boundaries with random valid surroundings."),
 }
 
